@@ -276,6 +276,22 @@ func modeFallback(n int) {
 	}
 	time.Sleep(350 * time.Millisecond)
 	u4.Close()
+	// fifth phase: the TCP leg is slow (3.6 s) but succeeds well inside the caller's deadline (6 s): the caller gets
+	// the TCP answer - the time the UDP leg was given does not bound the retry
+	srv5 := newServer("f5", func(ex int, proto string) behaviour {
+		if proto == "udp" {
+			return behaviour{tc: true}
+		}
+		return behaviour{delay: 3600 * time.Millisecond}
+	}, true, true)
+	defer srv5.close()
+	u5, err := upstream.NewUpstream("udp://"+srv5.addr, upstream.Opt{})
+	if err != nil {
+		panic(err)
+	}
+	planOf = func(ex int) (string, string) { return "tc", "ok" }
+	runWorkers(u5, 2, 1, 6*time.Second, 6*time.Second, false)
+	u5.Close()
 	planOf = nil
 	// the event filter stays on: hook events of worker goroutines that outlive the run must not reach this trace
 }
